@@ -111,7 +111,7 @@ SHAPES = ["str", "int", "list", "true", "none", "float", "bytes"]
 
 
 # ------------------------------------------------------------------------------------------------ schema building
-def _build(pos, leaf_kind, root_ctype=False, leaf_at=None):
+def _build(pos, leaf_kind, root_ctype=False):
     """-> root factory (Schema, or ConfigType class when root_ctype).  leaf `f` of kind leaf_kind sits at `pos`;
     every configuration on the way also has `ok = IntField(default=0)` (declared first)."""
     import cincoconfig as cc
@@ -267,12 +267,15 @@ def _execute(spec):
 
     def run():
         if route in ("attr", "dotted", "attr-after-load"):
-            cfg = root()
-            if route == "attr-after-load":
-                cfg.load_tree(_tree(owner_pos, {"ok": 5}, equal_items=equal))
-                owner = _navigate(cfg, owner_pos)
-            else:
-                owner = _prepare_lists(cfg, owner_pos, equal_items=equal)
+            try:  # preparation with valid values only: a failure here is not a case of this property
+                cfg = root()
+                if route == "attr-after-load":
+                    cfg.load_tree(_tree(owner_pos, {"ok": 5}, equal_items=equal))
+                    owner = _navigate(cfg, owner_pos)
+                else:
+                    owner = _prepare_lists(cfg, owner_pos, equal_items=equal)
+            except Exception:
+                return "skipped"
             if route == "dotted":
                 _dotted_set(cfg, owner_pos, key, value)
             else:
@@ -330,8 +333,11 @@ def _judge(spec, out):
     leaf = spec.get("leaf")
     if not out["is_validation_error"]:
         if spec["kind"] == "shape":
-            wk = "%s:nonmap-for-%s-with-children:%s" % (out["exc_type"], spec["pos"][spec["target"]][0],
-                                                         "loads" if route.startswith("loads") else route)
+            t = spec["target"]
+            inner = "-with-subschema" if t + 1 < len(spec["pos"]) and spec["pos"][t + 1][0] == "schema" else (
+                "-with-include" if t + 1 == len(spec["pos"]) and leaf == "include" else "")
+            wk = "%s:wrong-shape-for-%s%s:%s" % (out["exc_type"], spec["pos"][t][0] + ("-item" if spec.get("as_item") else ""),
+                                                inner, "loads" if route.startswith("loads") else route)
         elif leaf == "include":
             wk = "%s:include-field:%s" % (out["exc_type"], "loads" if route.startswith("loads") else route)
         else:
@@ -419,6 +425,9 @@ def rac(tier="quick", seed=0):
                         for route in ["attr", "ctor", "load_tree"] + ["loads:" + f for f in FORMATS]:
                             one({"kind": "shape", "posname": posname, "pos": [list(s) for s in pos], "leaf": "int",
                                  "target": t, "as_item": as_item, "value": shape, "route": route})
+                            if t == len(pos) - 1 and pos[t][0] == "schema":  # innermost schema holding an include field
+                                one({"kind": "shape", "posname": posname, "pos": [list(s) for s in pos],
+                                     "leaf": "include", "target": t, "as_item": as_item, "value": shape, "route": route})
         # (3) equal-valued items in lists of configurations (index must still be the item's own)
         for posname, pos in POSITIONS:
             if posname not in EQUAL_ITEM_POSITIONS:
